@@ -23,6 +23,8 @@
 //!                     {"h": "rwr", "eng", "obj", "bind", "script"}   Engine::run_with_reference
 //!                     {"h": "call", "eng", "fn", "kept": k}  call_function_by_name_with_args(fn, [k-th
 //!                        value the script handed to the host function `host-keep!`])
+//!                     {"h": "poke", "obj"}   the replayer itself touches an object outside any loan
+//!                        (self-test of the late-access sensor: must make the behaviour fail)
 //!   conversion steps  {"h": "extract", "ty", "name"}            Engine::extract::<T>(name)
 //!                     {"h": "h2s", "ty", "host": json, "fn"}    T -> IntoSteelVal -> script function
 //!                        (call_function_by_name_with_args) -> FromSteelVal -> T
@@ -348,6 +350,9 @@ fn register_shapes(e: &mut Engine) {
     e.register_fn("fo", |a: Option<i32>, b: u8| -> i32 { record_call("fo", vec![a.to_json(), b.to_json()]); 5 });
     e.register_fn("mk-p", |x: i32, s: String| -> P { P { x, s } });
     e.register_fn("mk-q", |y: i32| -> Q { Q { y } });
+    // observers that do not record (used by the oracle's observation expressions)
+    e.register_fn("p-get-x", |p: &P| -> i32 { p.x });
+    e.register_fn("p-get-s", |p: &P| -> String { p.s.clone() });
     e.register_fn("p-x", |p: &P| -> i32 { record_call("p-x", vec![p.to_json()]); p.x });
     e.register_fn("p-add", |p: &P, k: i32, t: String| -> i32 { record_call("p-add", vec![p.to_json(), k.to_json(), t.to_json()]); p.x.wrapping_add(k) });
     e.register_fn("p-set-x!", |p: &mut P, x: i32| { record_call("p-set-x!", vec![p.to_json(), x.to_json()]); p.x = x; });
@@ -585,6 +590,12 @@ impl<'c> Interp<'c> {
                     let panicked = got["class"] == "panic";
                     self.settle(idx, &st, got);
                     if panicked { return Err("panic".into()); }
+                }
+                "poke" => {
+                    // sensor self-test: the HOST touches an object it has not lent
+                    let o = self.obj(&s(&st, "obj"));
+                    let _ = unsafe { &*o }.get();
+                    self.settle(idx, &st, Self::ok_got());
                 }
                 "extract" => {
                     let k = self.eng(&st)?;
